@@ -210,11 +210,19 @@ enum HintKind {
     FromState, // what the migrating task computes: Blocking if blocking else NotBlockingInMigration(term)
 }
 
-fn c11_scenario(senders: Vec<Vec<HintKind>>, controllers: usize) -> (Vec<Body>, Box<dyn FnOnce(&Trace) -> Outcome + Send>) {
+fn c11_scenario(senders: Vec<Vec<HintKind>>, controllers: usize, recreated: bool) -> (Vec<Body>, Box<dyn FnOnce(&Trace) -> Outcome + Send>) {
     let log: Log = Arc::new(Mutex::new(vec![]));
     let held: Arc<Mutex<Vec<CounterTask<HTask>>>> = Arc::new(Mutex::new(vec![]));
     let redis = Arc::new(Redispatch { log: log.clone() });
     let map = Arc::new(BlockingMap::new(InnerFactory { log: log.clone(), held: held.clone() }, redis));
+    if recreated {
+        // an earlier metadata epoch used this backend and was dropped since (its queue is gone,
+        // the map keeps a dead weak reference), as after a node left and came back
+        let old_sender = TaskBlockingQueueSenderFactory::new(map.clone()).create("127.0.0.1:6000".to_string());
+        let old_ctrl = map.create("127.0.0.1:6000".to_string());
+        drop(old_sender);
+        drop(old_ctrl);
+    }
     let ctrl = map.create("127.0.0.1:6000".to_string());
     let factory = TaskBlockingQueueSenderFactory::new(map.clone());
     let total: usize = senders.iter().map(|s| s.len()).sum();
@@ -652,22 +660,26 @@ fn main() {
     match cli.prop.as_str() {
         "C11" => {
             use HintKind::*;
-            let mut scen: Vec<(String, Vec<Vec<HintKind>>, usize)> = vec![
-                ("1 sender(state-hint) + controller + replier".into(), vec![vec![FromState]], 1),
-                ("1 sender(not-blocking) + controller + replier".into(), vec![vec![NotBlocking]], 1),
-                ("2 senders(state-hint, not-blocking) + controller + replier".into(), vec![vec![FromState], vec![NotBlocking]], 1),
-                ("1 sender x2 tasks(state-hint) + controller + replier".into(), vec![vec![FromState, FromState]], 1),
+            let mut scen: Vec<(String, Vec<Vec<HintKind>>, usize, bool)> = vec![
+                ("1 sender(state-hint) + controller + replier".into(), vec![vec![FromState]], 1, false),
+                ("1 sender(not-blocking) + controller + replier".into(), vec![vec![NotBlocking]], 1, false),
+                ("2 senders(state-hint, not-blocking) + controller + replier".into(), vec![vec![FromState], vec![NotBlocking]], 1, false),
+                ("1 sender x2 tasks(state-hint) + controller + replier".into(), vec![vec![FromState, FromState]], 1, false),
+                ("backend queue dropped and re-created; 1 sender(state-hint) + controller + replier".into(), vec![vec![FromState]], 1, true),
+                ("backend queue dropped and re-created; 1 sender(not-blocking) + controller + replier".into(), vec![vec![NotBlocking]], 1, true),
             ];
             if thorough {
-                scen.push(("2 senders(state-hint x2) + controller + replier".into(), vec![vec![FromState], vec![FromState]], 1));
-                scen.push(("1 sender(state-hint) + 2 controllers + replier".into(), vec![vec![FromState]], 2));
-                scen.push(("3 senders + controller + replier".into(), vec![vec![FromState], vec![NotBlocking], vec![FromState]], 1));
+                scen.push(("2 senders(state-hint x2) + controller + replier".into(), vec![vec![FromState], vec![FromState]], 1, false));
+                scen.push(("1 sender(state-hint) + 2 controllers + replier".into(), vec![vec![FromState]], 2, false));
+                scen.push(("3 senders + controller + replier".into(), vec![vec![FromState], vec![NotBlocking], vec![FromState]], 1, false));
+                scen.push(("backend queue dropped and re-created; 2 senders(state-hint, not-blocking) + controller + replier".into(), vec![vec![FromState], vec![NotBlocking]], 1, true));
             }
-            for (name, senders, ctrls) in scen {
+            for (name, senders, ctrls, recreated) in scen {
                 let s2 = senders.clone();
-                // two senders at bound 3 are 1.2 million schedules (about 20 minutes on an idle machine): run once (session 3, no violation), not part of the tier
-                let b = if senders.len() >= 3 || ctrls > 1 { bound.min(2) } else if senders.len() >= 2 { if thorough { bound.min(2) } else { 1 } } else { bound };
-                run(name, Arc::new(move || c11_scenario(s2.clone(), ctrls)), b, cap);
+                // two senders at bound 3 are 1.2 million schedules (about 20 minutes on an idle machine): run once (session 3, no violation), not part of the tier;
+                // three senders at bound 2 did not finish in 40 minutes on a loaded machine (session 4): bound 1 in the tier
+                let b = if senders.len() >= 3 { bound.min(1) } else if ctrls > 1 { bound.min(2) } else if senders.len() >= 2 { if thorough { bound.min(2) } else { 1 } } else { bound };
+                run(name, Arc::new(move || c11_scenario(s2.clone(), ctrls, recreated)), b, cap);
             }
         }
         "C05" => {
